@@ -221,6 +221,26 @@ theorem query_pure (v : Variant) (st : DecState) (n : Nat) (h : n ≠ 0) : (deco
 
 example : (decodeQuery .zpe { len := 2 } 5).1 = .val 12 := by decide
 
+/-- The reset (`source == NULL`, `sourcelen == 0`) leaves a decoder between two messages, whatever state it
+    was in — stuck on an inline zero, inside a block, asking for work area: the open block and the partial
+    message are dropped (a delivered message that is still waiting stays), input position and offsets stay
+    consistent.  All statements about `Fresh` states (`honest_call`, `delivers`, `after_delivery`,
+    `honest_frames`, …) therefore apply to what arrives after a reset: bytes of an abandoned frame never get
+    into a later message. -/
+theorem reset_fresh (v : Variant) (st : DecState) (hwf : WF st) :
+    Fresh (decodeQuery v st 0).2 ∧ (decodeQuery v st 0).2.curr = st.curr ∧ (decodeQuery v st 0).2.pos = st.pos ∧
+    (decodeQuery v st 0).2.msg = st.msg ∧ ∀ total, Bnd total st → Bnd total (decodeQuery v st 0).2 := by
+  simp only [decodeQuery, if_true]
+  refine ⟨⟨rfl, ?_, ?_⟩, trivial, trivial, trivial, ?_⟩
+  · intro hn; simp only at hn ⊢; simp [hn]
+  · intro m hm; simp only at hm ⊢; simp [hm]; exact hwf m hm
+  · intro total hb
+    refine ⟨?_, hb.tot, ?_⟩
+    · have := hb.le; simp only; split <;> omega
+    · intro m hm; simp only at hm ⊢; simp [hm]; exact hb.msg m hm
+
+example : (decodeQuery .cobs { ctx := 0x205, curr := 3, pos := 0, len := 2 } 0).2 = { curr := 3 } := by decide
+
 /-- full statement of the header comment "Pass sourcelen = 0 … No data change is performed":
     peek mode returns the storage unchanged -/
 def peek_pure_statement : Prop :=
